@@ -22,6 +22,7 @@ import (
 	"fmt"
 	"hash/fnv"
 	"os"
+	"runtime"
 	"strings"
 	"sync"
 	"sync/atomic"
@@ -303,7 +304,9 @@ type xreadCase struct {
 	Readers int `json:"readers"`
 	Reads   int `json:"reads"`   // full reads per reader at most
 	DurMs   int `json:"dur_ms"`  // … and readers stop after this many milliseconds (0 = no time limit)
-	Writers int `json:"writers"` // concurrent writers to OTHER partitions (thorough)
+	Writers int `json:"writers"` // concurrent writers to OTHER partitions
+	Procs   int `json:"procs"`   // GOMAXPROCS while the readers run (0 = unchanged): sync.Pool is per P, so a pooled buffer released too early
+	// is only re-used by another handler when there are more busy connections than Ps
 	Page    int `json:"page"`
 }
 
@@ -401,6 +404,9 @@ func runXRead(c xreadCase, sec *vh.Section) {
 			}
 		}(w)
 	}
+	if c.Procs > 0 {
+		defer runtime.GOMAXPROCS(runtime.GOMAXPROCS(c.Procs))
+	}
 	var rwg sync.WaitGroup
 	deadline := time.Now().Add(time.Duration(c.DurMs) * time.Millisecond)
 	for r := 0; r < c.Readers; r++ {
@@ -455,7 +461,7 @@ func runXRead(c xreadCase, sec *vh.Section) {
 
 func sectionXRead(rng *vh.Rng) {
 	sec := res.Section("xread", "stress",
-		"concurrent readers over a quiescent store: 4 partitions x 1500 self-describing events (~110-byte messages, write-level + own fields; a full result is ~250 KB, far above the server's 4 KB initial result buffer) written through RPC, flush awaited; one sequential read per partition, then three configurations of 8..12 readers, each on its own RPC connection, read their partition completely over and over for 1.5 s each (thorough: 3 rounds of 4 s each, two of them with 2 writers to other partitions; page sizes 10000 and 300): every read must be exactly the partition's events (count, order, timestamp, message, tag line, fields). No writer touches the partitions being read, so the tail race #34 cannot occur. non-trivial = every run")
+		"concurrent readers over a quiescent store: 4 partitions x 1500 self-describing events (~110-byte messages, write-level + own fields; a full result is ~250 KB, far above the server's 4 KB initial result buffer) written through RPC, flush awaited; one sequential read per partition, then three configurations — 24 readers over 16 partitions with ~2 MB pages under GOMAXPROCS 4 and 2 writers to other partitions (more busy connections than Ps: a pooled buffer released too early is then re-used by another handler), 8 readers with ~250 KB pages, 12 readers with 300-event pages under GOMAXPROCS 2 — each reader on its own RPC connection re-reads its partition completely over and over for 3 s / 1.5 s / 1.5 s (thorough: 3 rounds of 4 s each, two of them with 2 writers to other partitions; page sizes 10000 and 300): every read must be exactly the partition's events (count, order, timestamp, message, tag line, fields). No writer touches the partitions being read, so the tail race #34 cannot occur. non-trivial = every run")
 	dur, rounds := 1500, 1
 	if args.Thorough {
 		dur, rounds = 4000, 3
@@ -466,9 +472,10 @@ func sectionXRead(rng *vh.Rng) {
 			w = 2
 		}
 		for _, c := range []xreadCase{
+			// more busy connections than processors, pages of ~2 MB (the socket write blocks), writers to other partitions
+			{Parts: 16, Events: 8000, MsgLen: 200, Readers: 24, Reads: 1 << 20, DurMs: 2 * dur, Page: 10000, Writers: 2, Procs: 4},
 			{Parts: 4, Events: 1500, MsgLen: 80, Readers: 8, Reads: 1 << 20, DurMs: dur, Page: 10000, Writers: w},
-			{Parts: 4, Events: 3000, MsgLen: 100, Readers: 8, Reads: 1 << 20, DurMs: dur, Page: 10000, Writers: w},
-			{Parts: 3, Events: 2000, MsgLen: 60, Readers: 12, Reads: 1 << 20, DurMs: dur, Page: 300, Writers: w},
+			{Parts: 3, Events: 2000, MsgLen: 60, Readers: 12, Reads: 1 << 20, DurMs: dur, Page: 300, Writers: w, Procs: 2},
 		} {
 			runXRead(c, sec)
 			if len(res.SpecFailures) > 0 && res.SpecFailures[len(res.SpecFailures)-1].Section == "xread" {
